@@ -711,6 +711,10 @@ def _(I, ctx, v):
     tgt = I.resolve_static(ctx.cur_crate, key)
     if tgt is not None: return I.call(ctx, ctx.cur_crate, key, [v])
     if src in INT_BITS and dst in INT_BITS: return I.cast_int(v, dst)
+    if re.match(r'^(std::sync::atomic::)?Atomic', dst) or re.match(r'^(std::cell::)?(Cell|RefCell)<', dst): return Agg('CellLike', [v])
+    if re.match(r'^(Box|Rc|Arc|std::\w+::(Box|Rc|Arc))<', dst): return v
+    if dst.startswith(('String', 'std::string::String')) and src in ('&str', 'str'): return StrV(list(str_bytes(v)))
+    if dst.startswith('Option<'): return SOME(v)
     raise Unsupported('Into::into ' + ctx.cur_key)
 @model('re:^<(u16|u32|u64|usize|i32|i64|u128) as From<(u8|u16|u32|bool|char|i32)>>::from$')
 def _(I, ctx, v):
@@ -891,3 +895,116 @@ def _(I, ctx, v):
     raise Unsupported('from_utf8_lossy on invalid UTF-8')
 @model('re:^(std::string::)?FromUtf8Error::into_bytes$')
 def _(I, ctx, e): return e.fields[0]
+
+
+@model('re:^<dyn (.*) as (.*)>::(\\w+)$')
+def _(I, ctx, *args):
+    m = re.match(r'^<dyn (.*) as (.*)>::(\w+)$', ctx.cur_key)
+    a0 = deref(args[0])
+    name = a0.name if isinstance(a0, Agg) else ('Vec' if isinstance(a0, VecV) else None)
+    if name is None: raise Unsupported('dyn dispatch on ' + repr(a0)[:40])
+    key = f'<{name} as {m.group(2)}>::{m.group(3)}'
+    if I.resolve_static(ctx.cur_crate, key) is None: raise Unsupported('dyn dispatch: no ' + key)
+    return I.call(ctx, ctx.cur_crate, key, list(args))
+
+
+@model('re:^(std::sync::atomic::)?(Atomic|AtomicUsize|AtomicU64|AtomicBool|AtomicU32)::new$')
+def _(I, ctx, v): return Agg('CellLike', [v])
+@model('re:^(std::sync::atomic::)?(Atomic|AtomicUsize|AtomicU64|AtomicBool|AtomicU32)::load$')
+def _(I, ctx, r, o): return deref(r).fields[0]
+@model('re:^(std::sync::atomic::)?(Atomic|AtomicUsize|AtomicU64|AtomicBool|AtomicU32)::store$')
+def _(I, ctx, r, v, o): deref(r).fields[0] = v; return UNIT
+@model('re:^(std::sync::atomic::)?(Atomic|AtomicUsize|AtomicU64|AtomicU32)::fetch_add$')
+def _(I, ctx, r, v, o):
+    c = deref(r); old = c.fields[0]; c.fields[0] = I.binop(ctx, 'Add', old, v); return old
+
+
+@model('re:^<(.*) as PartialEq(<.*>)?>::ne$')
+def _(I, ctx, a, b):
+    key = ctx.cur_key[:-4] + '::eq'
+    if I.resolve_static(ctx.cur_crate, key) is not None and I.resolve_static(ctx.cur_crate, key)[0] == 'fn':
+        return b_not(I.call(ctx, ctx.cur_crate, key, [a, b]))
+    return b_not(values_eq(I, ctx, a, b))
+
+
+@model('re:^(std::result::)?Result::(inspect_err|inspect)$')
+def _(I, ctx, r, f):
+    want = 'Err' if ctx.cur_key.endswith('inspect_err') else 'Ok'
+    if r.variant == want: I.call_value(ctx, ctx.cur_crate, f, [FieldRef(r, 0)])
+    return r
+@model('re:^(std::option::)?Option::(inspect)$')
+def _(I, ctx, o, f):
+    if o.variant == 'Some': I.call_value(ctx, ctx.cur_crate, f, [FieldRef(o, 0)])
+    return o
+@model('re:^(std::result::)?Result::(or_else)$')
+def _(I, ctx, r, f): return r if r.variant == 'Ok' else I.call_value(ctx, ctx.cur_crate, f, [r.fields[0]])
+@model('re:^(std::option::)?Option::(or_else)$')
+def _(I, ctx, o, f): return o if o.variant == 'Some' else I.call_value(ctx, ctx.cur_crate, f, [])
+@model('re:^(std::option::)?Option::(ok_or_else)$')
+def _(I, ctx, o, f): return OK(o.fields[0]) if o.variant == 'Some' else ERR(I.call_value(ctx, ctx.cur_crate, f, []))
+@model('re:^(std::option::)?Option::(map_or_else)$')
+def _(I, ctx, o, d, f): return I.call_value(ctx, ctx.cur_crate, f, [o.fields[0]]) if o.variant == 'Some' else I.call_value(ctx, ctx.cur_crate, d, [])
+@model('re:^(std::option::)?Option::(and)$')
+def _(I, ctx, a, b): return b if a.variant == 'Some' else NONE()
+@model('re:^(std::option::)?Option::(flatten)$')
+def _(I, ctx, o): return o.fields[0] if o.variant == 'Some' else o
+@model('re:^(std::option::)?Option::(is_some_and|is_none_or)$')
+def _(I, ctx, o, f):
+    o = deref(o)
+    if o.variant == 'None': return ctx.cur_key.endswith('is_none_or')
+    return I.call_value(ctx, ctx.cur_crate, f, [o.fields[0]])
+@model('re:^(std::result::)?Result::(is_ok_and|is_err_and)$')
+def _(I, ctx, r, f):
+    want = 'Ok' if ctx.cur_key.endswith('is_ok_and') else 'Err'
+    if r.variant != want: return False
+    return I.call_value(ctx, ctx.cur_crate, f, [r.fields[0]])
+@model('re:^(std::result::)?Result::(as_ref|as_mut)$')
+def _(I, ctx, r):
+    r0 = deref(r); return Agg('Result', [FieldRef(r0, 0)], r0.variant, r0.vidx)
+@model('re:^(std::result::)?Result::(ok_or)$')
+def _(I, ctx, *a): raise Unsupported(ctx.cur_key)
+@model('re:^(std::result::)?Result::(unwrap_err|expect_err)$')
+def _(I, ctx, r, *a):
+    if r.variant == 'Err': return r.fields[0]
+    raise Panic('unwrap_err on Ok')
+@model('re:^(std::option::)?Option::(as_deref_mut|as_slice)$')
+def _(I, ctx, o):
+    o0 = deref(o); return NONE() if o0.variant == 'None' else SOME(FieldRef(o0, 0))
+
+
+@model('re:^<(std::option::)?Option<.*> as Clone>::clone$', 're:^<(std::result::)?Result<.*> as Clone>::clone$', 're:^<\\(.*\\) as Clone>::clone$',
+       're:^<\\[.*\\] as Clone>::clone$', 're:^<(std::collections::)?(VecDeque|HashMap|HashSet|FnvHashMap|FnvHashSet|BTreeMap)<.*> as Clone>::clone$',
+       're:^<&.* as Clone>::clone$')
+def _(I, ctx, r):
+    from .props.lang_lex import clone_deep
+    v = deref1(r)
+    if ctx.cur_key.startswith('<&'): return v
+    return clone_deep(v) if not isinstance(v, Ref) else v
+
+
+@model('re:^<(std::path::)?(PathBuf|Path) as PartialEq(<.*>)?>::(eq|ne)$', 're:^<(std::ffi::)?(OsString|OsStr) as PartialEq(<.*>)?>::(eq|ne)$')
+def _(I, ctx, a, b):
+    r = values_eq(I, ctx, list(str_bytes(a)), list(str_bytes(b)))
+    return b_not(r) if ctx.cur_key.endswith('::ne') else r
+@model('re:^<(std::path::)?PathBuf as (Deref|AsRef<.*>|Borrow<.*>)>::(deref|as_ref|borrow)$', 're:^(std::path::)?(PathBuf|Path)::(as_path|as_os_str)$')
+def _(I, ctx, r): return r
+@model('re:^<(std::path::)?(PathBuf|Path) as (Partial)?Ord>::(partial_)?cmp$')
+def _(I, ctx, a, b):
+    xa, xb = list(str_bytes(a)), list(str_bytes(b))
+    for x, y in zip(xa, xb):
+        o = I.binop(ctx, 'Cmp', x, y)
+        if o.variant != 'Equal': return SOME(o) if 'partial' in ctx.cur_key else o
+    o = ordering(-1 if len(xa) < len(xb) else (1 if len(xa) > len(xb) else 0))
+    return SOME(o) if 'partial' in ctx.cur_key else o
+
+
+@model('Vec::as_ptr', 'Vec::as_mut_ptr', 're:^(?:core|std|alloc)::slice::<impl \\[.*\\]>::(as_ptr|as_mut_ptr)$')
+def _(I, ctx, r):
+    l, lo, hi = seq_view(r)
+    return Agg('RawPtr', [l, lo])
+@model('std::mem::size_of', 'core::mem::size_of')
+def _(I, ctx): return BV(ctx.ELEM_STRIDE, 64)
+
+
+@model('re:^<.* as (std::ops::)?Drop>::drop$', 're:^(std|core)::ptr::drop_in_place$')
+def _(I, ctx, *a): return UNIT
